@@ -231,6 +231,12 @@ class Exec:
                       else z3.And(v.ref != ty.NULL, z3.Select(st.alloc, v.ref)))
         elif isinstance(t, ty.SeqT) and isinstance(v, ty.SeqV):
             st.assume(v.len >= 0)                       # python lists / arrays have non-negative length
+            if isinstance(t.elem, ty.SeqT) and len(v.arrs) >= 2:
+                # a list of lists: every inner list has a non-negative length too (the inner length is the last component)
+                wi = z3.Int(ty.fresh_name("wfi"))
+                inner = z3.Select(v.arrs[-1], wi)
+                if not (z3.is_quantifier(v.arrs[-1]) and v.arrs[-1].is_lambda()):
+                    st.assume(ty.FA([wi], inner >= 0, patterns=[inner]))
         elif t is ty.Mat and isinstance(v, ty.MatV):
             st.assume(z3.And(v.rows >= 0, v.cols >= 0))
         elif t is ty.CMat and isinstance(v, ty.CMatV):
@@ -673,6 +679,9 @@ class Exec:
             i = ty.to_z3num(idx)
             i = self.norm_index(i, cont.len)
             self.safety(st, "index", z3.And(i >= 0, i < cont.len), node)
+            from . import nplib
+            if isinstance(val, nplib.MaskedV):          # rows[i] = rows[i][mask]: the selection is materialised as an order-preserving subsequence
+                val = val.to_seq(self, st)
             return cont.with_at(i, self.coerce(cont.elem, val, node))
         if isinstance(cont, ty.OptV):
             self.safety(st, "none-subscript-store", z3.Not(cont.isnone), node)
@@ -1100,6 +1109,7 @@ class Exec:
                             dec1 = spec.decreases(self.view(o2.st))
                             self.oblige(o2.st, f"{label}/decreases", z3.And(dec0 >= 0, dec1 < dec0), s)
                     elif o2.kind == "break":
+                        self.oblige_at_exit(spec, o2.st, label, "break", s)
                         res.append(Out("next", None, o2.st))
                     else:
                         res.append(o2)
@@ -1111,12 +1121,22 @@ class Exec:
                 c = self.truth(o.val, o.st, s)
                 for taken, st2 in self.branch(o.st, c, f"{label}:exitguard"):
                     if not taken:
+                        self.oblige_at_exit(spec, st2, label, "guard", s)
                         res.append(Out("next", None, st2))
         else:
             k = exit_st.lookup(kname)[1]
             exit_st.assume(k == iter_seq.len)
+            self.oblige_at_exit(spec, exit_st, label, "exhausted", s)
             res.append(Out("next", None, exit_st))
         return res
+
+    def oblige_at_exit(self, spec, st, label, how, node):
+        """LoopSpec.at_exit: clauses over the locals that must hold wherever control leaves the loop and continues after it (guard false, iterable
+        exhausted, or a `break`) - this is where 'the loop stops only when ...' is stated, since a function's postcondition does not see locals."""
+        if getattr(spec, "at_exit", None) is None:
+            return
+        for tag, g in self.eval_clauses(spec.at_exit, self.view(st)):
+            self.oblige_clause(st, f"{label}/at-exit({how})/{tag}", g, node)
 
     def stmt_For(self, s, st):
         if s.orelse:
